@@ -40,6 +40,7 @@ class Engine:
         self.solver = z3.Solver()
         self.solver.set("timeout", feas_timeout_ms)
         self.assumptions = []
+        self.oplog = None  # set to [] to record every rounded arithmetic operation (E1)
         self.fresh = 0
 
     def assume(self, c):
@@ -231,7 +232,15 @@ class SymFP(Sym):
         a, b, t = c
         if swap:
             a, b = b, a
-        return SymFP(f(RNE, a, b), t)
+        r = f(RNE, a, b)
+        e = Engine.cur
+        if e is not None and e.oplog is not None:
+            e.oplog.append((f.__name__, a, b, r, t))
+        return SymFP(r, t)
+
+    def reference(self, *a, **kw):
+        # Expr.reference(...) only names a value for the printers
+        return self
 
     def __add__(self, o):
         return self._ar(o, z3.fpAdd)
@@ -562,29 +571,35 @@ class SymInt(Sym):
 
     __ror__ = __or__
 
-    def _cmp(self, o, f):
+    def _cmp(self, o, f, big=None):
+        if isinstance(o, int) and not isinstance(o, bool) and big is not None:
+            W = eng().W
+            if o >= (1 << (W - 2)):
+                return big[0]  # every value of the backing vector is below such a constant
+            if o < -(1 << (W - 2)):
+                return big[1]
         b = self._co(o)
         if b is None:
             return NotImplemented
         return SymBool(f(self.e, b))
 
     def __lt__(self, o):
-        return self._cmp(o, lambda a, b: a < b)
+        return self._cmp(o, lambda a, b: a < b, (True, False))
 
     def __le__(self, o):
-        return self._cmp(o, lambda a, b: a <= b)
+        return self._cmp(o, lambda a, b: a <= b, (True, False))
 
     def __gt__(self, o):
-        return self._cmp(o, lambda a, b: a > b)
+        return self._cmp(o, lambda a, b: a > b, (False, True))
 
     def __ge__(self, o):
-        return self._cmp(o, lambda a, b: a >= b)
+        return self._cmp(o, lambda a, b: a >= b, (False, True))
 
     def __eq__(self, o):
-        return self._cmp(o, lambda a, b: a == b)
+        return self._cmp(o, lambda a, b: a == b, (False, False))
 
     def __ne__(self, o):
-        return self._cmp(o, lambda a, b: a != b)
+        return self._cmp(o, lambda a, b: a != b, (True, True))
 
     def bit_length(self):
         W = eng().W
@@ -731,6 +746,9 @@ class SymDType:
     def __call__(self, v=0):
         if isinstance(v, SymFP):
             return _cast(v, self.t)
+        if isinstance(v, SymInt):
+            # NumPy converts a Python int to the float type with round-to-nearest-even
+            return SymFP(z3.fpSignedToFP(RNE, v.e, z3.FPSort(*FMT[self.t])), self.t)
         if isinstance(v, Sym):
             raise Unsupported("%s(%s)" % (self.t.__name__, type(v).__name__))
         with numpy.errstate(all="ignore"):
@@ -1000,10 +1018,28 @@ def ldexp_pow2(t, k):
     return SymFP(z3.fpBVToFP(bits, z3.FPSort(eb, sb)), t)
 
 
+def ldexp_general(x, k):
+    """numpy.ldexp(x, k) = RNE(x * 2**k) with a single rounding: computed exactly in a format with the same precision
+    and a 15-bit exponent (so the scaling is exact for |k| < 16000), then rounded to the format of x"""
+    eb, sb = x.fmt
+    W = eng().W
+    wide = z3.FPSort(15, sb)
+    xw = z3.fpFPToFP(RNE, x.e, wide)
+    ke = k.e if isinstance(k, SymInt) else z3.BitVecVal(int(k), W)
+    bias = (1 << 14) - 1
+    if isinstance(k, SymInt):
+        eng().side.append(("ldexp-exponent-range", z3.And(ke > -16000, ke < 16000)))
+    efield = z3.Extract(14, 0, ke + z3.BitVecVal(bias, W))
+    pw = z3.fpBVToFP(z3.Concat(z3.BitVecVal(0, 1), efield, z3.BitVecVal(0, sb - 1)), wide)
+    return SymFP(z3.fpFPToFP(RNE, z3.fpMul(RNE, xw, pw), z3.FPSort(eb, sb)), x.t)
+
+
 def _np_ldexp(x, k):
     if isinstance(x, numpy.floating) and float(x) == 1.0 and isinstance(k, SymInt):
         return ldexp_pow2(type(x), k)
-    raise Unsupported("ldexp(%r, %r): only ldexp(1, symbolic int) is modelled" % (x, type(k)))
+    if isinstance(x, SymFP) and isinstance(k, (SymInt, int)):
+        return ldexp_general(x, k)
+    raise Unsupported("ldexp(%r, %r) is not modelled" % (type(x), type(k)))
 
 
 def _np_array(obj, dtype=None, **kw):
@@ -1093,14 +1129,15 @@ def reglobal(module, extra=None, numpy_extra=None, int_shadow=True):
 # path exploration
 # ---------------------------------------------------------------------------------------------
 class PathResult:
-    def __init__(self, decisions, pre, pc, side, result, exc):
+    def __init__(self, decisions, pre, pc, side, result, exc, oplog=None):
         self.decisions, self.pre, self.pc, self.side, self.result, self.exc = decisions, pre, pc, side, result, exc
+        self.oplog = oplog
 
     def sig(self):
         return "".join("T" if d else "F" for d in self.decisions) or "-"
 
 
-def explore(run, int_width=80, max_paths=5000):
+def explore(run, int_width=80, max_paths=5000, oplog=False):
     """`run(engine)` builds the symbolic arguments (may call engine.assume for the precondition) and calls the
     function; returns its result.  Yields a PathResult per feasible path."""
     work = [[]]
@@ -1108,6 +1145,8 @@ def explore(run, int_width=80, max_paths=5000):
     while work:
         prefix = work.pop()
         e = Engine(prefix, int_width=int_width)
+        if oplog:
+            e.oplog = []
         Engine.cur = e
         res, exc = None, None
         try:
@@ -1127,7 +1166,7 @@ def explore(run, int_width=80, max_paths=5000):
         finally:
             Engine.cur = None
         work.extend(e.pending)
-        out.append(PathResult(e.decisions, list(e.assumptions), list(e.pc), list(e.side), res, exc))
+        out.append(PathResult(e.decisions, list(e.assumptions), list(e.pc), list(e.side), res, exc, e.oplog))
         if len(out) > max_paths:
             raise Unsupported("path explosion")
     return out
